@@ -91,6 +91,20 @@ def judge(P, sem, run):
     return out
 
 
+def src_of(P):
+    """Program text; auxiliary predicates nnK (each defined by the single clause `nnK :- \\+G.` and used only as `\\+nnK`)
+    are written as the double negation `\\+\\+G` they stand for (same well-founded semantics, and a cycle through them is
+    a cycle through negation)."""
+    src = spine.to_src(P)
+    if not P.get("nn"):
+        return src
+    import re
+    for name, g in P["nn"].items():
+        src = "\n".join(l for l in src.split("\n") if l != "%s :- \\+%s." % (name, g))
+        src = re.sub(r"\\\+%s\b" % re.escape(name), lambda m: "\\+\\+" + g, src)
+    return src
+
+
 def gen_prop_loops(rng):
     """Propositional programs with dense positive and negative loops: 0-ary predicates p0..pk with 1-3 clauses whose
     bodies mix p's (positive / negated, any direction) and probabilistic facts."""
@@ -108,9 +122,27 @@ def gen_prop_loops(rng):
                 a = (rng.choice(list(preds)), ())
                 body.append(("neg" if (a[0].startswith("p") and rng.random() < negp) else "pos", a))
             stmts.append(("rule", ("p%d" % i, ()), body))
+    nn = {}
+    if rng.random() < 0.3:
+        # double negation \+\+G (through an auxiliary predicate, see src_of)
+        g = "p%d" % rng.randrange(k)
+        preds["nn0"] = (0, 1)
+        stmts.append(("rule", ("nn0", ()), [("neg", (g, ()))]))
+        rules = [i for i, st in enumerate(stmts) if st[0] == "rule" and st[1][0].startswith("p")]
+        i = rng.choice(rules)
+        body = list(stmts[i][2])
+        if rng.random() < 0.5 and len(body) > 1:
+            body[rng.randrange(len(body))] = ("neg", ("nn0", ()))
+        else:
+            body.append(("neg", ("nn0", ())))
+        stmts[i] = ("rule", stmts[i][1], body)
+        nn["nn0"] = g
     rng.shuffle(stmts)
     qs = [("p%d" % rng.randrange(k), ())]
-    return dict(consts=["a"], preds=preds, stmts=stmts, queries=qs, evidence=[])
+    P = dict(consts=["a"], preds=preds, stmts=stmts, queries=qs, evidence=[])
+    if nn:
+        P["nn"] = nn
+    return P
 
 
 def run(ctx):
@@ -160,10 +192,10 @@ def run(ctx):
                 nrej += 1
         ctx.count("corpus must-reject programs still rejected", nrej)
     sems = semcheck.spec_batch(drv, progs)
-    runs = pmap(_work, [spine.to_src(P) for P in progs])
+    runs = pmap(_work, [src_of(P) for P in progs])
     nshrunk = 0
     for P, sem, r in zip(progs, sems, runs):
-        src = spine.to_src(P)
+        src = src_of(P)
         if sem is None:
             ctx.count("skipped(too many worlds)")
             continue
@@ -181,14 +213,14 @@ def run(ctx):
 
                 def still(c, sig=sig):
                     s2 = semcheck.spec_batch(drv, [c])[0]
-                    r2 = _work(spine.to_src(c))
+                    r2 = _work(src_of(c))
                     return any(semcheck.same_failure(s, sig) for _, s in judge(c, s2, r2))
                 try:
                     small = c01.shrink_program(P, still)
                 except Exception:
                     small = P
                 nshrunk += 1
-            ctx.fail(what + " | program: " + spine.to_src(small).replace("\n", " "), {"program": small, "src": spine.to_src(small)}, sig)
+            ctx.fail(what + " | program: " + src_of(small).replace("\n", " "), {"program": small, "src": src_of(small)}, sig)
             break
     return ctx.finish("other", "Lean classifier (well-founded model) executed on every generated program; engine outcome compared "
                                "with the class. The engine's detector is not modelled: explored, not proved.")
